@@ -17,7 +17,13 @@ NPROC = os.cpu_count() or 8
 
 # sources of modules/base needed by almost everything (logging, assert, catch_throw)
 BASE_SOURCES = ['modules/base/log_impl.cpp', 'modules/base/backtrace.cpp', 'modules/base/catch_throw.cpp',
-                'modules/base/recorder.cpp']
+                'modules/base/recorder.cpp', 'modules/base/log_output.cpp']
+
+# the event module (reactor loop, both engines)
+EVENT_SOURCES = ['modules/event/' + f for f in [
+    'common_loop.cpp', 'common_loop_run.cpp', 'common_loop_signal.cpp', 'common_loop_timer.cpp',
+    'engines/epoll/fd_event.cpp', 'engines/epoll/loop.cpp', 'engines/select/fd_event.cpp', 'engines/select/loop.cpp',
+    'loop.cpp', 'misc.cpp', 'signal_event_impl.cpp', 'stat.cpp', 'timer_event_impl.cpp']]
 
 ALLOWED_AXIOMS = {'propext', 'Classical.choice', 'Quot.sound'}
 FORBIDDEN = re.compile(r'\bsorry\b|\badmit\b|^\s*axiom\s|\bnative_decide\b|\bbv_decide\b|implemented_by|\bunsafe\s|maxHeartbeats\s+0\b', re.M)
@@ -232,22 +238,36 @@ def split_cases(text):
     return cases
 
 
+OUTPUT_CAP = 256 * 1024 * 1024   # a runaway harness may not fill memory/disk: output file size limit
+
+
 def run_proc(exe_argv, inp, timeout, env=None):
+    """run a child with stdin from a temp file and stdout/stderr to size-capped temp files"""
+    import resource, tempfile
     e = dict(os.environ)
     e.setdefault('ASAN_OPTIONS', 'detect_leaks=0:abort_on_error=0:exitcode=99:allocator_may_return_null=1')
     e.setdefault('UBSAN_OPTIONS', 'halt_on_error=1:exitcode=98:print_stacktrace=1')
     e.setdefault('TSAN_OPTIONS', 'exitcode=97:halt_on_error=1')
     if env: e.update(env)
-    try:
-        r = subprocess.run(exe_argv, input=inp, stdout=subprocess.PIPE, stderr=subprocess.PIPE, text=True,
-                           timeout=timeout, env=e, errors='replace')
-        return r.returncode, r.stdout, r.stderr
-    except subprocess.TimeoutExpired as ex:
-        out = ex.stdout or ''
-        if isinstance(out, bytes): out = out.decode(errors='replace')
-        err = ex.stderr or ''
-        if isinstance(err, bytes): err = err.decode(errors='replace')
-        return 'timeout', out, err
+    os.makedirs(os.path.join(CACHE, 'tmp'), exist_ok=True)
+    with tempfile.TemporaryDirectory(dir=os.path.join(CACHE, 'tmp')) as td:
+        fi, fo, fe = os.path.join(td, 'in'), os.path.join(td, 'out'), os.path.join(td, 'err')
+        with open(fi, 'w') as fh:
+            fh.write(inp)
+
+        def limits():
+            resource.setrlimit(resource.RLIMIT_FSIZE, (OUTPUT_CAP, OUTPUT_CAP))
+            resource.setrlimit(resource.RLIMIT_CORE, (0, 0))
+        rc = None
+        with open(fi) as hi, open(fo, 'w') as ho, open(fe, 'w') as he:
+            try:
+                r = subprocess.run(exe_argv, stdin=hi, stdout=ho, stderr=he, timeout=timeout, env=e, preexec_fn=limits)
+                rc = r.returncode
+            except subprocess.TimeoutExpired:
+                rc = 'timeout'
+        so = open(fo, errors='replace').read()
+        se = open(fe, errors='replace').read(4 * 1024 * 1024)
+    return rc, so, se
 
 
 def classify_crash(rc, stderr):
@@ -585,7 +605,7 @@ def standard_check(P, tier, seed, replay=None):
     # (8) evidence
     samples = []
     for i in sorted(cases)[:1] + sorted(cases)[-2:]:
-        samples.append({'ops': cases[i][:40], 'impl': impl.get(i, [])[:6], 'model': model.get(i, [])[:6]})
+        samples.append({'ops': [o[:200] for o in cases[i][:40]], 'impl': [l[:300] for l in impl.get(i, [])[:6]], 'model': [l[:300] for l in model.get(i, [])[:6]]})
     cov.update({
         'evaluations': len(cases),
         'distinct_nontrivial': len(nontrivial_keys),
